@@ -8,7 +8,15 @@ for d in sorted(glob.glob('/verif/seeded/*')):
     caught = [k for k, v in chk.items() if v.get('exit') == 1]
     green = [k for k, v in chk.items() if v.get('exit') == 0]
     summ = re.sub(r'\s+', ' ', m['summary']).replace('|', '/')[:170]
-    first = 'missed at first, check strengthened' if m.get('history') else ''
+    missed = False
+    for h in m.get('history', []):
+        if isinstance(h, str):
+            missed = True  # hand-written note of rounds 1-2: the seed was missed and a check strengthened
+        elif (h.get('checks_against_patch') or {}).get(m['property'], {}).get('exit') == 0:
+            missed = True
+    first = 'missed at first, check strengthened' if missed else ''
+    if m.get('rebased'):
+        first = (first + '; ' if first else '') + 'patch rebased on a later fix'
     rows.append('| %s | %s | %s… | %s | %s | %s |' % (os.path.basename(d), m['property'], summ, ', '.join(caught) or '—', ', '.join(green) or '—', first))
 table = '| seed | property | what the change does | caught by (quick tier) | other check run, stays green | note |\n|---|---|---|---|---|---|\n' + '\n'.join(rows) + '\n'
 p = '/verif/DESIGN.md'
